@@ -27,6 +27,7 @@ type State struct {
 	pendingBlockSize   int               // The data size (bytes) of the blocks pending processing
 	lastSavedHash      bitcoin.Hash32
 	pendingSync        bool // The peer has notified us of all blocks. Now we just have to process to catch up.
+	blockProcessing    bool // The block handed out by NextBlock has not finished processing yet
 	lock               sync.Mutex
 }
 
@@ -69,6 +70,7 @@ func (state *State) Reset() {
 	state.blocksToRequest = state.blocksToRequest[:0]
 	state.pendingSync = false
 	state.pendingBlockSize = 0
+	state.blockProcessing = false
 }
 
 func (state *State) ProtocolVersion() uint32 {
